@@ -17,6 +17,47 @@ def load_known_findings():
     return data.get('findings', [])
 
 
+class Remap:
+    """Lets one property's check reuse rule groups of another: forwards only the mapped rule ids."""
+
+    def __init__(self, chk, mapping):
+        self.chk = chk
+        self.mapping = mapping
+        self.tier = chk.tier
+        self.violations = []
+        self.explanation = ''
+        self.assumptions = []
+        self.not_decided = []
+        self.exhaustive = False
+
+    def rule(self, rid, text):
+        pass
+
+    def ok(self, rule, construct, detail=''):
+        if rule in self.mapping:
+            self.chk.ok(self.mapping[rule], construct, detail)
+
+    def fail(self, rule, construct, detail, file=None, line=None):
+        if rule in self.mapping:
+            self.chk.fail(self.mapping[rule], construct, detail, file, line)
+
+    def expect(self, cond, rule, construct, detail='', file=None, line=None):
+        if cond:
+            self.ok(rule, construct, detail)
+        else:
+            self.fail(rule, construct, detail, file, line)
+        return cond
+
+    def count(self, name, n=1):
+        pass
+
+    def floor(self, name, actual, minimum):
+        self.chk.floor(name, actual, minimum)
+
+    def sample(self, obj):
+        pass
+
+
 class Check:
     """One run of one property's check."""
 
